@@ -108,7 +108,35 @@ pub struct Case {
 }
 
 const NAMES: [&str; 3] = ["main", "other", ""];
-pub const SCHEMAS: [&str; 4] = [SCHEMA_SRC, SCHEMA_VARIANT, SCHEMA_BROKEN_SYNTAX, SCHEMA_BROKEN_SEMANTICS];
+/// a valid schema with namespaces, common types, an enumerated entity type, tags and annotations
+pub const SCHEMA_RICH: &str = r#"
+namespace Org {
+  type Address = { street: String, zip?: Long };
+  type Ids = Set<Long>;
+  entity Team in [Team];
+  entity Person in [Team] = { addr: Address, ids: Ids, boss?: Person, kind: Kind } tags String;
+  entity Kind enum ["staff", "guest"];
+  @doc("read") action read appliesTo { principal: [Person], resource: [Person, Team], context: { addr?: Address } };
+  action "write all" in [read] appliesTo { principal: [Person], resource: [Team] };
+}
+entity Top;
+action top appliesTo { principal: [Top, Org::Person], resource: [Top] };
+"#;
+/// parses, but an entity position names something that is only a common type
+pub const SCHEMA_ENTITY_REF_TO_COMMON: &str = "type Foo = { a: Long };
+entity User in [Foo] = { f: Foo };
+action view appliesTo { principal: [User], resource: [User] };";
+/// parses, but the common types refer to each other
+pub const SCHEMA_TYPE_CYCLE: &str = "type A = B;
+type B = Set<A>;
+entity User = { a: A };
+action view appliesTo { principal: [User], resource: [User] };";
+/// valid; common type names shadow nothing but look like entity names
+pub const SCHEMA_COMMON_HEAVY: &str = "type Name = String;
+type Pair = { left: Name, right: Name };
+entity User = { name: Name, pairs: Set<Pair>, peer?: User };
+action view, edit appliesTo { principal: [User], resource: [User], context: Pair };";
+pub const SCHEMAS: [&str; 8] = [SCHEMA_SRC, SCHEMA_VARIANT, SCHEMA_BROKEN_SYNTAX, SCHEMA_BROKEN_SEMANTICS, SCHEMA_RICH, SCHEMA_ENTITY_REF_TO_COMMON, SCHEMA_TYPE_CYCLE, SCHEMA_COMMON_HEAVY];
 
 // ------------------------------------------------------------------ document rendering
 
@@ -128,8 +156,11 @@ fn uid_json(s: &str, form: u8) -> Value {
 pub fn schema_json(idx: u8) -> Value {
     // JSON rendering of the schema documents; computed through the API from the Cedar text for the
     // valid ones (the result is just another input document), hand-written for the broken ones
-    match idx % 4 {
-        0 | 1 => SchemaFragment::from_cedarschema_str(SCHEMAS[idx as usize % 4]).ok().and_then(|(f, _)| f.to_json_value().ok()).unwrap_or(json!({})),
+    match idx % 8 {
+        0 | 1 | 4 | 7 => SchemaFragment::from_cedarschema_str(SCHEMAS[idx as usize % 8]).ok().and_then(|(f, _)| f.to_json_value().ok()).unwrap_or(json!({})),
+        // an explicit entity reference to a name that is declared only as a common type
+        5 => json!({"": {"commonTypes": {"Foo": {"type": "Record", "attributes": {"a": {"type": "Long"}}}}, "entityTypes": {"User": {"shape": {"type": "Record", "attributes": {"f": {"type": "Entity", "name": "Foo"}, "g": {"type": "EntityOrCommon", "name": "Foo"}}}}}, "actions": {"view": {"appliesTo": {"principalTypes": ["User"], "resourceTypes": ["User"]}}}}}),
+        6 => json!({"": {"commonTypes": {"A": {"type": "B"}, "B": {"type": "Set", "element": {"type": "A"}}}, "entityTypes": {"User": {"shape": {"type": "Record", "attributes": {"a": {"type": "A"}}}}}, "actions": {"view": {"appliesTo": {"principalTypes": ["User"], "resourceTypes": ["User"]}}}}}),
         2 => json!({"": {"entityTypes": {"User": {"shape": {"type": "Record", "attributes": {"level": {"type": 7}}}}}, "actions": {}}}),
         _ => json!({"": {"entityTypes": {"User": {"memberOfTypes": ["Nowhere"], "shape": {"type": "Record", "attributes": {"level": {"type": "Missing"}}}}}, "actions": {"view": {"appliesTo": {"principalTypes": ["User"], "resourceTypes": ["User"]}}}}}),
     }
@@ -137,7 +168,7 @@ pub fn schema_json(idx: u8) -> Value {
 
 fn schema_doc(idx: u8, render: u8) -> Value {
     if render % 2 == 0 {
-        Value::String(SCHEMAS[idx as usize % 4].to_string())
+        Value::String(SCHEMAS[idx as usize % 8].to_string())
     } else {
         schema_json(idx)
     }
@@ -146,7 +177,7 @@ fn schema_doc(idx: u8, render: u8) -> Value {
 /// reference: parse a schema document through the API
 fn api_schema(idx: u8, render: u8) -> Result<Schema, String> {
     if render % 2 == 0 {
-        let (f, _) = SchemaFragment::from_cedarschema_str(SCHEMAS[idx as usize % 4]).map_err(|e| e.to_string())?;
+        let (f, _) = SchemaFragment::from_cedarschema_str(SCHEMAS[idx as usize % 8]).map_err(|e| e.to_string())?;
         TryInto::<Schema>::try_into(f).map_err(|e| e.to_string())
     } else {
         let f = SchemaFragment::from_json_value(schema_json(idx)).map_err(|e| e.to_string())?;
@@ -752,7 +783,7 @@ fn do_convert(step: usize, kind: u8, ps: &PsDoc, sidx: u8) -> JobResult {
             }
         }
         5 => {
-            let src = SCHEMAS[sidx as usize % 4];
+            let src = SCHEMAS[sidx as usize % 8];
             let Ok(s) = serde_json::from_value::<ffi::Schema>(Value::String(src.to_string())) else { return out };
             let ans = serde_json::to_value(ffi::schema_to_json(s)).unwrap_or(Value::Null);
             let got = if ty(&ans).as_deref() == Some("success") { ans.get("json").cloned() } else { None };
@@ -959,7 +990,7 @@ fn run(case: &Case, obs: &mut Obs) -> Option<Violation> {
                     continue;
                 };
                 let (p, s) = (pick_ps(cli.ps), pick_store(cli.store));
-                let schema_text = cli.schema.map(|(i, r)| if r % 2 == 0 { (SCHEMAS[i as usize % 4].to_string(), false) } else { (schema_json(i).to_string(), true) });
+                let schema_text = cli.schema.map(|(i, r)| if r % 2 == 0 { (SCHEMAS[i as usize % 8].to_string(), false) } else { (schema_json(i).to_string(), true) });
                 callers[t].call(move || crate::worlds::frontends_cli::do_cli(step, &cli, &p, &s, schema_text, &bin, &shim))
             }
         };
@@ -1150,11 +1181,11 @@ impl World for Frontends {
                 },
                 4 => Op::Validate { thread, ps: rng.below(psets.len()) as u8, render: rng.below(16) as u8, schema: schema_pick(&mut rng), srender: rng.below(2) as u8, permissive: rng.pct(30) },
                 5 => Op::Format { thread, ps: rng.below(psets.len()) as u8, width: *rng.pick(&[20u16, 40, 80, 120]), indent: *rng.pick(&[0u8, 2, 4]) },
-                6 => Op::Convert { thread, kind: rng.below(7) as u8, ps: rng.below(psets.len()) as u8, schema: schema_pick(&mut rng) },
-                7 => Op::CheckParse { thread, kind: rng.below(4) as u8, ps: rng.below(psets.len()) as u8, render: rng.below(16) as u8, schema: schema_pick(&mut rng), srender: rng.below(2) as u8, store: rng.below(stores.len()) as u8 },
+                6 => Op::Convert { thread, kind: rng.below(7) as u8, ps: rng.below(psets.len()) as u8, schema: rng.below(8) as u8 },
+                7 => Op::CheckParse { thread, kind: rng.below(4) as u8, ps: rng.below(psets.len()) as u8, render: rng.below(16) as u8, schema: if rng.pct(50) { rng.below(8) as u8 } else { schema_pick(&mut rng) }, srender: rng.below(2) as u8, store: rng.below(stores.len()) as u8 },
                 _ => {
                     let mut fr = Rng::sub(seed ^ ops.len() as u64, "faults");
-                    let kind = *fr.pick(&[0u8, 0, 0, 0, 1, 1, 2, 3, 4, 5]);
+                    let kind = *fr.pick(&[0u8, 0, 0, 0, 1, 1, 1, 2, 3, 4, 5, 6, 6]);
                     let nf = *fr.pick(&[0usize, 0, 0, 1, 1, 2]);
                     let faults = (0..nf).map(|_| crate::worlds::frontends_cli::FileFault { file: fr.below(6) as u8, kind: fr.range(1, 6) as u8, arg: fr.next() as u32 }).collect();
                     let schema = if kind == 1 || kind == 3 { Some((schema_pick(&mut rng), 0)) } else if kind == 4 { Some((schema_pick(&mut rng), 1)) } else if rng.pct(55) { Some((schema_pick(&mut rng), rng.below(2) as u8)) } else { None };
@@ -1179,7 +1210,7 @@ impl World for Frontends {
                     };
                     Op::Cli {
                         thread,
-                        cli: crate::worlds::frontends_cli::CliOp { kind, ps: if !good_ps.is_empty() && rng.pct(80) { *rng.pick(&good_ps) } else { rng.below(psets.len()) as u8 }, store: rng.below(stores.len()) as u8, schema, req, verbose: rng.pct(50), request_validation, request_json: rng.pct(40), policy_json: rng.pct(30), faults, hash_seed: hs.next() },
+                        cli: crate::worlds::frontends_cli::CliOp { kind, ps: if !good_ps.is_empty() && rng.pct(80) { *rng.pick(&good_ps) } else { rng.below(psets.len()) as u8 }, store: rng.below(stores.len()) as u8, schema, req, verbose: rng.pct(50), request_validation, request_json: rng.pct(40), policy_json: rng.pct(30), deny_warnings: rng.pct(40), level: if rng.pct(35) { Some(rng.below(3) as u8) } else { None }, fmt_width: *rng.pick(&[0u16, 20, 40, 80, 120]), fmt_indent: *rng.pick(&[0u8, 2, 4]), fmt_check: rng.pct(60), fmt_tail: rng.below(4) as u8, faults, hash_seed: hs.next() },
                     }
                 }
             };
@@ -1254,7 +1285,7 @@ impl World for Frontends {
 }
 
 pub fn warm_up() {
-    for i in 0..4u8 {
+    for i in 0..8u8 {
         for r in 0..2u8 {
             let _ = api_schema(i, r);
             let _ = serde_json::from_value::<ffi::Schema>(schema_doc(i, r)).map(ffi::check_parse_schema);
